@@ -80,7 +80,8 @@ def ascii_text(v, depth=0):
         if v.op in ('index', 'slice', 'elem', 'phi', 'loopacc', 'repeat', 'loopvar') and v.args:
             return all(ascii_text(a, depth + 1) for a in v.args if not isinstance(a, (int, type(None))))
         if v.op == 'call' and v.args and isinstance(v.args[0], Sym) and v.args[0].op == 'attr' and \
-                v.args[0].args[1] in ('split', 'strip', 'lower', 'upper', 'join', 'lstrip', 'rstrip'):
+                v.args[0].args[1] in ('split', 'rsplit', 'partition', 'rpartition', 'splitlines', 'strip', 'lower', 'upper', 'join', 'lstrip', 'rstrip',
+                                      'replace', 'title', 'capitalize', 'casefold', 'swapcase', 'zfill', 'removeprefix', 'removesuffix'):
             return ascii_text(v.args[0].args[0], depth + 1) and all(is_const(a) or ascii_text(a, depth + 1) for a in v.args[1:])
         if v.op == 'join':
             return is_const(v.args[0]) and ascii_text(v.args[1], depth + 1)
@@ -226,11 +227,43 @@ class CallMixin:
             # a method of an attribute whose class is not statically known
             base = SelfV(fv.path[:-1], None, fv.root_cls)
             return self.method_on_value(base, fv.path[-1], args, kwargs, fr, node)
+        if isinstance(fv, Sym) and fv.op == 'dispatch':
+            return self.call_dispatch(fv.args[0], fv.args[1], args, kwargs, fr, node, star)
         if isinstance(fv, Sym) and fv.op == 'param':
             self.risk(fr, 'callparam', (), fv.args[0], node)
         if isinstance(fv, (FieldV,)) or (isinstance(fv, Sym) and fv.op in ('phi',)):
             self.risk(fr, 'callunknown', (), fv, node)
         return Sym('call', fv, *args)
+
+    def call_dispatch(self, table, key, args, kwargs, fr, node, star):
+        """``table.get(key)(...)`` over a complete table of functions: one alternative per distinct function, in table order,
+        selected by ``key in (<its keys>)`` - the trace an if / elif chain over the same keys produces"""
+        from .trace import Alt
+        groups = []
+        for k, f in table.pairs:
+            for g in groups:
+                if g[0].func is f.func:
+                    g[1].append(k)
+                    break
+            else:
+                groups.append((f, [k]))
+
+        def chain(i, frame):
+            f, keys = groups[i]
+            if i == len(groups) - 1:
+                return self.call_v(f, args, kwargs, frame, node, star)
+            cond = Sym('cmp', 'in', key, tuple(keys)) if len(keys) > 1 else Sym('cmp', '==', key, keys[0])
+            alt = Alt(cond, [], [], node)
+            frame.emit(alt)
+            a, b = self.fork(frame, alt.then), self.fork(frame, alt.orelse)
+            a.cond_depth += 1
+            b.cond_depth += 1
+            ra = self.call_v(f, args, kwargs, a, node, star)
+            rb = chain(i + 1, b)
+            alt.then_status = alt.else_status = 'next'
+            from .interp import merge_values
+            return merge_values([ra, rb])
+        return chain(0, fr)
 
     def method_on_value(self, base, name, args, kwargs, fr, node):
         # local containers
@@ -273,6 +306,9 @@ class CallMixin:
                     return v
                 if base.complete and not base.star and is_const(args[0]):
                     return args[1] if len(args) > 1 else None
+                if base.complete and not base.star and base.pairs and all(isinstance(x, FuncV) for _, x in base.pairs):
+                    # a dispatch table of functions looked up with a run-time key: called below like the if / elif chain it replaces
+                    return Sym('dispatch', base, args[0])
                 return Sym('call', Sym('attr', base, name), *args)
             if name == 'update' and len(args) == 1:
                 src = args[0]
